@@ -4211,8 +4211,11 @@ class EntityMeta(type):
         query_attrs = {attr: value is None for attr, value in avdict.items()}
         limit = 2 if not unique else None
         sql, adapter, attr_offsets = entity._construct_sql_(query_attrs, False, limit, for_update, nowait, skip_locked)
+        cache = database._get_cache()
+        if for_update: cache.immediate = True
+        # flush first: a value may be an object that receives its primary key only when it is inserted
+        cache.prepare_connection_for_query_execution()
         arguments = adapter(avdict)
-        if for_update: database._get_cache().immediate = True
         cursor = database._exec_sql(sql, arguments)
         objects = entity._fetch_objects(cursor, attr_offsets, 1, for_update, avdict)
         return objects[0] if objects else None
